@@ -74,7 +74,7 @@ def structural(canon):
     return [x for x in canon if "ModifiedEvent" not in x.split(":")[0]]
 
 
-def win_one(lean, r, init_ops, groups, recursive, *, noise, res, label):
+def win_one(lean, r, init_ops, groups, recursive, *, noise, res, label, cuts=True):
     """one history through the real emitter; returns the violations: concrete ones (exception, stop flag, replay) or, when
     none of those shows, the first break of the model <-> implementation tie"""
     line = win_request(init_ops, groups, recursive)
@@ -107,7 +107,7 @@ def win_one(lean, r, init_ops, groups, recursive, *, noise, res, label):
             batches, cur = [], []
             for rc in recs:
                 cur.append(rc)
-                if r.random() < 0.35:
+                if cuts and r.random() < 0.35:
                     batches.append(cur)
                     cur = []
             if cur or not batches:
@@ -199,6 +199,12 @@ WIN_FIXED = [
     # growth bursts (the regime of C20.win_burst_grow_partial): mkdir -p + populate in one read, inside old and new directories
     ([("mkdir", "W/d")], [[("mkdir", "W/a"), ("mkdir", "W/a/b"), ("create", "W/a/f"), ("mkdir", "W/a/b/d"), ("create", "W/d/a"),
                            ("mkdir", "W/d/dd"), ("create", "W/d/dd/b")], [("create", "W/a/b/d/a")]]),
+    # a name the walk of a NEW directory announced is vacated by a rename and re-used, all within the same read
+    ([], [[("mkdir", "W/d"), ("create", "W/d/x"), ("rename", "W/d/x", "W/d/b"), ("create", "W/d/x")], [("write", "W/d/x")]]),
+    ([("mkdir", "O/d"), ("create", "O/d/x")],
+     [[("rename", "O/d", "W/d"), ("rename", "W/d/x", "W/d/b"), ("create", "W/d/x")], [("unlink", "W/d/b")]]),
+    ([], [[("mkdir", "W/d"), ("mkdir", "W/d/dd"), ("rename", "W/d/dd", "W/d/a"), ("mkdir", "W/d/dd"), ("create", "W/d/dd/b")],
+          [("rename", "W/d", "W/b")]]),
 ]
 
 
@@ -209,6 +215,7 @@ def win_runs(res, lean, r, thorough):
     for init, groups in WIN_FIXED:
         for rec in (True, False):
             cases.append((init, groups, rec, False, "win_fixed"))
+            cases.append((init, groups, rec, False, "win_fixed_one_read"))
             cases.append((init, [[op] for g in groups for op in g], rec, False, "win_fixed_drained"))
     for i in range(n_hist):
         t0 = {"W": "d", "O": "d"}
@@ -232,7 +239,8 @@ def win_runs(res, lean, r, thorough):
             cases.append((init, groups, rec, False, "win_burst"))
     for init, groups, rec, noise, label in cases:
         res.bump(label)
-        bad += win_one(lean, r, init, groups, rec, noise=noise, res=res, label=label)
+        bad += win_one(lean, r, init, groups, rec, noise=noise, res=res, label=label,
+                       cuts=(label != "win_fixed_one_read" and not (label == "win_burst" and r.random() < 0.5)))
     # the emitter tie on arbitrary record streams (what no well-behaved OS sends included)
     bad += win_adversarial(res, lean, r, 40 if thorough else 10)
     return bad
